@@ -422,6 +422,10 @@ pub struct Script {
     /// a pause longer than the NAK timeout before the i-th delivery of the first phase (data arriving after an
     /// unanswered NAK round has expired)
     pub pause_before: Option<u32>,
+    /// length of that pause
+    pub pause_ms: u64,
+    /// hook H5 (Scenario::yields)
+    pub yields: u8,
 }
 
 pub fn build(s: &Script) -> C08Case {
@@ -440,6 +444,7 @@ pub fn build(s: &Script) -> C08Case {
     let mut sc = Scenario::two_entities(recv_cfg.clone(), recv_cfg);
     sc.entities[0].present = false;
     sc.seed = s.seed;
+    sc.yields = s.yields;
     sc.stop_when_quiet = true;
     let seg = s.seg as u64;
     let size: u64 = if s.nsegs == 0 { 0 } else { (s.nsegs as u64 - 1) * seg + if s.last_short { seg / 2 + 1 } else { seg } };
@@ -519,12 +524,7 @@ pub fn build(s: &Script) -> C08Case {
         if s.pause_before == Some(ii as u32) {
             // either clearly after the NAK timer (2 s) expired, or so that this delivery falls into the very millisecond (+-1) in
             // which a NAK round started by the previous delivery expires
-            t += match s.seed % 5 {
-                0 | 1 => 2000 - STEP,
-                2 => 2000 - STEP + 1,
-                3 => 2000 - STEP - 1,
-                _ => 2000 + 100 + (s.seed % 300),
-            };
+            t += s.pause_ms;
         }
         let bytes = match it {
             It::M => meta.clone(),
@@ -621,6 +621,8 @@ lists split over several PDUs) ; sampled over segment sizes {16,24,32,64}, the l
                         seed: ctx.seed ^ ((nsegs as u64) << 32 | (withheld as u64) << 8 | order as u64),
                         crc: false,
                         pause_before: None,
+                        pause_ms: 0,
+                        yields: 0,
                     });
                 }
             }
@@ -629,8 +631,42 @@ lists split over several PDUs) ; sampled over segment sizes {16,24,32,64}, the l
     ctx.section = "every-subset-seg16".into();
     let n = scripts.len() as u64;
     ctx.drive_indexed(&part, n, true, |i| build(&scripts[i as usize]));
+    // immediate procedure: a NAK round for a first gap goes unanswered; the delivery that opens a second gap falls into the
+    // millisecond (+-1) in which that round's timer expires, the transaction task is polled late (hook H5) so that timer and PDU are
+    // ready together, and the seeded select! takes either first: the new gap must be requested whichever comes first
+    let mut scripts2 = vec![];
+    for a in 1u32..=3 {
+        for extra in 0u32..=2 {
+            let nsegs = a + 5 + extra;
+            for delta in [-1i64, 0, 1] {
+                for yields in [2u8, 3, 4] {
+                    for sd in 0..ctx.tier.pick(6u64, 24) {
+                        scripts2.push(Script {
+                            nsegs,
+                            seg: 16,
+                            large: false,
+                            nak: NakSpec { immediate: true, delay_ms: 0 },
+                            withheld: (2 << a) | (2 << (a + 2)),
+                            order: 0,
+                            answer: (sd % 4) as u8,
+                            prompt_before_eof: false,
+                            last_short: sd % 2 == 1,
+                            seed: mix(ctx.seed ^ 0xC08E, sd * 131 + a as u64),
+                            crc: false,
+                            pause_before: Some(a + 2),
+                            pause_ms: (2000 - STEP as i64 + delta) as u64,
+                            yields,
+                        });
+                    }
+                }
+            }
+        }
+    }
+    ctx.section = "nak-expiry-coincides-with-new-gap".into();
+    let n2 = scripts2.len() as u64;
+    ctx.drive_indexed(&part, n2, true, |i| build(&scripts2[i as usize]));
     // sampled variations
-    let total = ctx.tier.pick(20_000u64, 200_000);
+    let total = ctx.tier.pick(60_000u64, 400_000);
     let seed = ctx.seed;
     ctx.section = "sampled-variations".into();
     ctx.drive_indexed(&part, total, false, |i| {
@@ -651,6 +687,15 @@ lists split over several PDUs) ; sampled over segment sizes {16,24,32,64}, the l
             seed: rng.next(),
             crc: rng.chance(1, 3),
             pause_before: if rng.chance(1, 3) { Some(rng.below(nsegs as u64 + 2) as u32) } else { None },
+            // either clearly after the NAK timer (2 s) expired, or so that the delivery falls into the very millisecond (+-1) in
+            // which a NAK round started by the previous delivery expires
+            pause_ms: match rng.below(5) {
+                0 | 1 => 2000 - STEP,
+                2 => 2000 - STEP + 1,
+                3 => 2000 - STEP - 1,
+                _ => 2100 + rng.below(300),
+            },
+            yields: *rng.pick(&[0u8, 0, 3, 4]),
         })
     });
     ctx.section.clear();
